@@ -34,7 +34,15 @@ ClauseNbr(e) ==
    ELSE IF \E f \in DOMAIN e.feats : \E sg \in Segs(e.feats[f]) :
          NearSeg(e.q, sg[1], sg[2], e.d * e.d) /\ (f - 1) \notin ToSet(e.res)
    THEN "neighbourhood_omits" ELSE "ok"
+\* (1') grids whose cell size is not a binary fraction (0.1 ...): coordinates and cell borders are then only approximately
+\* where the integers of the model put them, so one thing only is claimed - a point query made AT A VERTEX of a feature
+\* (identical floating-point coordinates) returns that feature
+ClausePointVertex(e) ==
+   IF e.raised THEN "point_query_raised"
+   ELSE IF \E f \in DOMAIN e.feats : (\E k \in DOMAIN e.feats[f] : e.feats[f][k] = e.q) /\ (f - 1) \notin ToSet(e.res)
+   THEN "point_query_at_a_vertex_omits_its_feature" ELSE "ok"
 Clause(e) == CASE e.ev = "reg" -> ClauseReg(e)
+               [] e.ev = "pointv" -> ClausePointVertex(e)
                [] e.ev = "point" -> ClausePoint(e)
                [] e.ev = "poly" -> ClausePoly(e)
                [] e.ev = "nbr" -> ClauseNbr(e)
